@@ -218,6 +218,12 @@ def check(ctx):
                 out_.add(c_)
         return out_
     callers = _lift(callers)
+    # a join helper hoisted out of _merge_columns (a new function called only from it) is part of it
+    lifted = set()
+    for j_ in joiners:
+        lj = _lift({j_}) if ctx.prog.is_new_helper(j_) else {j_}
+        lifted |= {x_.split(".<locals>")[0] for x_ in lj}
+    joiners = lifted
     ctx.ob("R13.3", fq, None, callers == {val}, f"_merge_columns is called only from the shared validator (callers: "
            f"{sorted(c.split(':')[1] for c in callers)})", construct="merge callers")
     other = {j for j in joiners if j != fq}
